@@ -1,6 +1,7 @@
 import ScVerif.C11.TableObligation
 import ScVerif.C11.LocksetLemmas
 import ScVerif.C11.ExecNeed
+import ScVerif.C11.Many
 import ScVerif.Generated.C11Facts
 /-!
 C11 — the one obligation that depends on the table regenerated from /repo's sources on every run
@@ -49,6 +50,18 @@ table the lock discipline is not only sufficient but also necessary for the abse
 modelled executions (a pair the discipline does not order has a conforming racy execution). -/
 theorem C11_table_rows_well_formed : ∀ a ∈ accesses, WfRow a :=
   fun a ha => (wfRowB_iff a).mp (List.all_eq_true.mp (show accesses.all wfRowB = true by decide +kernel) a ha)
+
+table_obligation in
+/-- **…with any number of instances at once** (round 8, `Many.lean`): in every execution of the many-object
+semantics — any number of objects, each with its own locks, channels, creator and role assignment; program
+order across objects, synchronisation edges within an object — in which the events of every object do what
+the table extracted on this run says of them, any two conflicting accesses to one object by different
+goroutines are ordered by happens-before of the whole execution. -/
+theorem C11_table_many_instances_race_free {cr : Nat → Nat} {ρ : Nat → Nat → Nat} {es : List MEv}
+    {Sf : Nat → XState} (hv : mrun cr minit es = some Sf) (hc : ∀ o, Conforms (cr o) (ρ o) accesses (proj o es))
+    {o p q t₁ t₂ : Nat} {a b : Access} (hp : es[p]? = some (o, XEv.acc t₁ a))
+    (hq : es[q]? = some (o, XEv.acc t₂ b)) (hne : t₁ ≠ t₂) (hcf : conflict a b) : MHB es p q ∨ MHB es q p :=
+  many_no_data_race (tbl := fun _ => accesses) (fun _ => C11_lock_discipline) hv hc hp hq hne hcf
 
 -- …and there are such rows
 table_obligation in
